@@ -398,7 +398,12 @@ impl Parse for bool {
 
 pub(super) fn convert_to_int(value: &str) -> i64 {
     if value.starts_with("0x") || value.starts_with("0X") {
-        i64::from_str_radix(&value[2..], 16).unwrap()
+        let digits = &value[2..];
+        // A hexadecimal literal with the most significant bit set denotes the bit pattern of
+        // the 64-bit integer, e.g. `0xFFFFFFFFFFFFFFFF` is `-1`.
+        #[allow(clippy::cast_possible_wrap)]
+        i64::from_str_radix(digits, 16)
+            .unwrap_or_else(|_| u64::from_str_radix(digits, 16).unwrap() as i64)
     } else {
         value.parse().unwrap()
     }
